@@ -528,6 +528,7 @@ fn builder_one(ctx: &Ctx, seq: Vec<Op>) {
     {
         ctx.eval();
         let mut m = BModel { ty: "t0".into(), name: "n0".into(), ..Default::default() };
+        let mut rebuilt: Vec<bool> = vec![];
         let mut b = Some(GenericPurlBuilder::new("t0".to_owned(), "n0"));
         for op in &seq {
             let cur = b.take().unwrap();
@@ -576,7 +577,9 @@ fn builder_one(ctx: &Ctx, seq: Vec<Op>) {
                 Op::RawQ(k, v) => { let mut c2 = cur; if c2.parts.qualifiers.insert(*k, *v).is_ok() { m.q.insert(k.to_ascii_lowercase(), v.to_string()); } c2 },
                 Op::RawClear(k) => { let mut c2 = cur; if let Some(v) = c2.parts.qualifiers.get_mut(*k) { v.clear(); m.q.insert(k.to_ascii_lowercase(), String::new()); } c2 },
                 Op::Rebuild => {
-                    match guarded(|| cur.clone().build()) {
+                    let built = guarded(|| cur.clone().build());
+                    rebuilt.push(matches!(&built, Ok(Ok(_))));
+                    match built {
                         Ok(Ok(p)) => {
                             // what build() hands out: type lower-cased, empty values dropped, checksum canonical
                             m.ty = m.ty.to_ascii_lowercase();
@@ -635,7 +638,16 @@ fn builder_one(ctx: &Ctx, seq: Vec<Op>) {
         if !seq.iter().any(|o| matches!(o, Op::Ty(_))) {
             for t in [PackageType::Maven, PackageType::NuGet, PackageType::PyPI, PackageType::Npm] {
                 let mut tb = Purl::builder(t, "n0");
+                // a Rebuild step that succeeds for the type-agnostic builder and fails for this type (or the reverse: the Maven rule, the
+                // initial name) leaves the two builders in different states: the model, which follows the type-agnostic one, says nothing
+                // about this type from there on
+                let (mut ri, mut diverged) = (0usize, false);
                 for op in &seq {
+                    if let Op::Rebuild = op {
+                        let ok = matches!(guarded(|| tb.clone().build()), Ok(Ok(_)));
+                        if rebuilt.get(ri) != Some(&ok) { diverged = true; }
+                        ri += 1;
+                    }
                     tb = match op {
                         Op::Ns(s) => tb.with_namespace(*s), Op::Name(s) => tb.with_name(*s), Op::Ver(s) => tb.with_version(*s), Op::Sub(s) => tb.with_subpath(*s),
                         Op::NoNs => tb.without_namespace(), Op::NoVer => tb.without_version(), Op::NoSub => tb.without_subpath(), Op::NoQs => tb.without_qualifiers(),
@@ -652,6 +664,7 @@ fn builder_one(ctx: &Ctx, seq: Vec<Op>) {
                         Op::TCkColon => { let mut c = purl::qualifiers::well_known::Checksum::default(); c.insert_raw("SHA512:256", "AB".to_string()); let s0 = tb.clone(); tb.try_with_typed_qualifier(Some(c)).unwrap_or(s0) },
                     };
                 }
+                if diverged { continue; }
                 let rule_ok = t != PackageType::Maven || sig_ns(&m.ns).is_some();
                 let should = !m.name.is_empty() && !matches!(cks, Some(None)) && rule_ok;
                 match guarded(|| tb.build()) {
